@@ -1,4 +1,5 @@
 import Iec.Lemmas.Srv104
+import Iec.Lemmas.HpQueue
 /-
 C13 — Event ordering and response priority on a CS104 server connection.
 
@@ -13,10 +14,16 @@ Theorems on the server model (step properties): a reply is written to the socket
 only when nothing is parked before it (`direct_only_if_nothing_parked`, the repaired
 `sendASDUInternal`), otherwise it goes to the response queue or the call reports failure
 (`parked_or_refused`); `sendWaitingASDUs` takes from the response queue before it takes an
-event (`responses_before_events`).  FIFO order inside the two ring buffers is tied by the
-correspondence run (queue contents are dumped and compared after every operation) and by
-the model-free order oracle of the harness; a refinement proof of the rings to lists is
-not yet written (partial).
+event (`responses_before_events`).
+
+The response (high-priority) ring is PROVED to be a FIFO: `reply_ring_refines_fifo` - the byte-offset ring
+with its three pointers refines a list queue (layout invariant `HpInv`, `enqueue_refines`, `getNext_refines`),
+and `reply_ring_fifo` - for every ring size, every reply size and every interleaving of enqueue and dequeue
+(hence every wrap position), what was queued plus what was accepted equals what was handed out plus what is
+still queued, in order; an empty answer means empty.  Attempting this proof exposed a genuine defect (second
+wrap over queued replies, fix 6ce2fc6); the model is the repaired code and is tied to it by the direct ring
+differential (`hq.*` operations) and the model-free FIFO oracle.  FIFO order inside the EVENT ring is still
+tied by the correspondence run only (partial, see C06).
 -/
 namespace Iec.Props.C13
 open Iec.Srv104 Iec.KWindow Iec.Queues
@@ -49,5 +56,43 @@ theorem responses_before_events (s : Slave) (i : Nat) (fuel : Nat)
     sendWaitingHigh s i (fuel + 1) = (s, false) := by
   unfold sendWaitingHigh
   simp [hq, hw]
+
+/-- **C13, replies are never reordered or silently dropped (ring level).** From a freshly created response
+ring of any size `n >= 1`, after ANY history of enqueue / dequeue operations: the replies accepted by the ring,
+in order, are exactly the replies handed out, in order, followed by the replies still queued. -/
+theorem reply_ring_fifo (n : Nat) (hn : 1 ≤ n) (ops : List HpOp) :
+    ∃ up low, HpInv (hpRun (HpQueue.create n) ops).1 up low ∧
+      (hpRun (HpQueue.create n) ops).2.1 = (hpRun (HpQueue.create n) ops).2.2 ++ HpInv.abs up low := by
+  obtain ⟨up, low, h, heq⟩ := hp_fifo ops (HpQueue.create n) [] [] (HpInv.empty n hn)
+  exact ⟨up, low, h, by simpa [HpInv.abs] using heq⟩
+
+/-- one operation at a time: the ring refines the list queue `HpInv.abs` -/
+theorem reply_ring_refines_fifo (q : HpQueue) (up low : List HpEntry) (h : HpInv q up low) :
+    (∀ d, ((q.enqueue d).2 = true → ∃ up' low', HpInv (q.enqueue d).1 up' low' ∧ HpInv.abs up' low' = HpInv.abs up low ++ [d]) ∧
+          ((q.enqueue d).2 = false → HpInv (q.enqueue d).1 up low)) ∧
+    (HpInv.abs up low = [] → q.getNext.2 = none) ∧
+    (∀ x xs, HpInv.abs up low = x :: xs → q.getNext.2 = some x ∧ ∃ up' low', HpInv q.getNext.1 up' low' ∧ HpInv.abs up' low' = xs) := by
+  refine ⟨fun d => enqueue_refines q up low h d, ?_, ?_⟩
+  · intro he
+    have hup : up = [] := by cases up with | nil => rfl | cons a b => simp [HpInv.abs] at he
+    subst hup
+    have hc : q.count = 0 := by have := h.count; rw [h.lowup rfl] at this; simpa using this
+    simp [HpQueue.getNext, hc]
+  · intro x xs he
+    cases up with
+    | nil => have := h.lowup rfl; subst this; simp [HpInv.abs] at he
+    | cons u0 rest =>
+      obtain ⟨q', hg, hne, hnil⟩ := getNext_refines q u0 rest low h
+      have hx : u0.2 = x ∧ (rest ++ low).map Prod.snd = xs := by simpa [HpInv.abs] using he
+      rw [hg]
+      refine ⟨by rw [hx.1], ?_⟩
+      by_cases hr : rest = []
+      · subst hr; exact ⟨low, [], hnil rfl, by simpa [HpInv.abs] using hx.2⟩
+      · exact ⟨rest, low, hne hr, by simpa [HpInv.abs] using hx.2⟩
+
+/-- non-vacuity: the invariant holds for a fresh ring, and a small history behaves as the list queue says -/
+example : HpInv (HpQueue.create 1) [] [] := HpInv.empty 1 (by omega)
+example : (hpRun (HpQueue.create 1) [.enq [1, 2], .enq [3], .deq, .enq [4, 5, 6], .deq, .deq, .deq]).2 =
+    ([[1, 2], [3], [4, 5, 6]], [[1, 2], [3], [4, 5, 6]]) := by decide
 
 end Iec.Props.C13
